@@ -568,7 +568,7 @@ where
         let mut update_proofs = Vec::<UpdateProof>::new();
         for user_state in &user_data {
             let proof = self
-                .create_single_update_proof(akd_label, user_state)
+                .create_single_update_proof(akd_label, user_state, &current_azks)
                 .await?;
             update_proofs.push(proof);
         }
@@ -784,6 +784,7 @@ where
         &self,
         akd_label: &AkdLabel,
         user_state: &ValueState,
+        current_azks: &Azks,
     ) -> Result<UpdateProof, AkdError> {
         let epoch = user_state.epoch;
         let value = &user_state.value;
@@ -794,7 +795,9 @@ where
             .get_node_label::<TC>(akd_label, VersionFreshness::Fresh, version)
             .await?;
 
-        let current_azks = self.retrieve_azks().await?;
+        // All proofs of one history answer are taken from the tree as of the epoch record the request read
+        // at its start (`current_azks`): re-reading the record here would mix in a newer epoch when a publish
+        // completes while the answer is being assembled.
         let existence_vrf = self
             .vrf
             .get_label_proof::<TC>(akd_label, VersionFreshness::Fresh, version)
